@@ -171,6 +171,11 @@ func handlerProbes() []string {
 				":x!y@z TOPIC #c :"+run, ":srv CAP * LS :"+run, "AUTHENTICATE "+run, ":x!y@z PRIVMSG #c :"+run)
 		}
 	}
+	// lines around and beyond the sizes of the read buffers (4096: bufio's default; 8191: the IRCv3 tag limit; 64 KiB)
+	for _, n := range []int{4094, 4095, 4096, 4097, 5000, 8191, 20000, 70000} {
+		run := strings.Repeat("a", n)
+		res = append(res, ":x!y@z PRIVMSG #c :"+run, "@t="+run+" :x!y@z PRIVMSG #c :x", run, "PING :"+run)
+	}
 	return res
 }
 
